@@ -301,7 +301,8 @@ PROPS["C14"] = dict(
                "Map2/KernWf.v: on every well-formed map, every in-use edge dart and every list of distinct in-use spare darts, an "
                "insertion that terminates normally leaves a well-formed map; C14_single_insertion_keeps_wf2: the same for the "
                "single-vertex entry point insert_vertex_on_edge, its own code path, with the kernel's freeness test as the only "
-               "source of distinctness)",
+               "source of distinctness; C14_single_insertion_{boundary,inner}_images: the exact images after a successful "
+               "single insertion -- two consecutive segments, both sides glued segment by segment, every other image untouched)",
     technique="Coq model of the kernel + correspondence + extracted Coq specification as per-run validator",
     families=[
         Family("kern-insert", "core2", r_kern("insert", 1500, 30000), 1, [(7, "insert_spec", INS_CLASSES)]),
